@@ -66,6 +66,16 @@ def run(ctx):
         lines = ["go %s | | depth 3" % f, "go %s | | depth %d searchmoves %s" % (f, rng.choice([1, 2, 3, 4]), " ".join(sub))]
         sessions.append(lines)
         meta.append([(f, 3, None), (f, None, sub)])
+    # a depth limit given TOGETHER with other limits (a generous clock, movetime, nodes, movestogo, increments): the depth still binds
+    for _ in range(50 if q else 600):
+        f = rng.choice(fens)
+        d = rng.choice([1, 2, 2, 3, 3, 4])
+        extra = rng.choice(["wtime 3600000 btime 3600000", "wtime 3600000 btime 3600000 winc 1000 binc 1000", "wtime 3600000 btime 3600000 movestogo %d" % rng.choice([1, 10, 40]),
+                            "movetime 3600000", "nodes 100000000", "wtime 1 btime 1", "%s 3600000" % ("wtime" if f.split()[1] == "w" else "btime"),
+                            "%s 3600000" % ("btime" if f.split()[1] == "w" else "wtime")])
+        lim = rng.choice(["depth %d %s" % (d, extra), "%s depth %d" % (extra, d)])
+        sessions.append(["go %s | | %s" % (f, lim)])
+        meta.append([(f, d, None)])
     # finite time / clock limits terminate on their own
     tl = []
     for _ in range(24 if q else 300):
@@ -159,6 +169,7 @@ def run(ctx):
     for i, ((f, l), k) in enumerate(zip(uci_cases, keys)):
         jobs.append((f, l, "list last", ["position fen " + f, "go depth 2 searchmoves " + " ".join(l)]))
         jobs.append((f, l, "limit after the list", ["position fen " + f, "go searchmoves " + " ".join(l) + " depth 2"]))
+        jobs.append((f, l, "depth with a clock", ["position fen " + f, "go wtime 3600000 btime 3600000 depth 2 searchmoves " + " ".join(l)]))
         rc2_, lr2, e2_ = run_lines(model, ["legal " + f])
         outside = [m for m in (lr2[0] or "0").split()[1:] if m not in l and len(m) == 4 and m not in ("e1g1", "e1c1", "e8g8", "e8c8")]
         if outside and k and all(ch in "0123456789abcdefABCDEFx" for ch in k.strip()):
@@ -175,6 +186,12 @@ def run(ctx):
     for (f, l, shape, script), r in zip(jobs, ures):
         ngo += 1
         b = r["bestmoves"][0] if r["bestmoves"] else None
+        deps = [int(x.split()[3]) for x in r["log"] if x.startswith("< info depth ") and x.split()[3].isdigit()]
+        if deps and max(deps) > 2:
+            nviol += 1
+            if nviol <= 6:
+                ctx.violation("UCI [%s]: '%s' on '%s': iteration %d reported although the limit is depth 2" % (shape, script[-1], f, max(deps)),
+                              {"session": script, "log": r["log"][-8:]}, key="c09:ucidepth:%s:%s" % (shape, f))
         if b not in l:
             nviol += 1
             if nviol <= 6:
@@ -193,7 +210,12 @@ def run(ctx):
             return [kind]
         if kind == "searchmoves":
             return ["searchmoves"] + rng.sample(moves, rng.choice([1, 1, 2, 3, len(moves)]))
-        v = rng.choice([0, 1, 2, 5, 40, 41, 1000, 60000, 2147483647, -1, -50]) if kind != "nodes" else rng.choice([0, 1, 5000, 2147483648, 9007199254740993, -3])
+        if kind == "movestogo":
+            v = rng.choice([0, 1, 2, 5, 40, 41, 199, 200, -1])       # the time manager's loop is quadratic in movestogo: stay inside C20's stated range 0..200
+        elif kind == "nodes":
+            v = rng.choice([0, 1, 5000, 2147483648, 9007199254740993, -3])
+        else:
+            v = rng.choice([0, 1, 2, 5, 40, 41, 1000, 60000, 2147483647, -1, -50])
         return [kind, str(v)]
     KINDS = ["ponder", "infinite", "searchmoves", "wtime", "btime", "winc", "binc", "movestogo", "depth", "nodes", "mate", "movetime"]
     pcmds = []
